@@ -11,6 +11,10 @@ for meta in sorted(glob.glob(os.path.join(VERIF, 'seeded', '*', 'meta.json'))):
     notes = os.path.join(os.path.dirname(meta), 'notes.md')
     change = m.get('change') or ''
     det = '; '.join((d.get('check', '') + (': ' + d['how'] if d.get('how') else '')) for d in m.get('detected_by', [])) or 'NOT DETECTED'
+    if m.get('neutralised'):
+        det += ' — NEUTRALISED: ' + m['neutralised'][:220]
+    if m.get('rebased'):
+        det += ' (patch rebased by hand after later fix: commits)'
     rows.append(f"| {sid} | {m['breaks_property']} | {m['needs_to_manifest']} | {det} |")
 table = "| id | property | needs, to manifest | caught by |\n|---|---|---|---|\n" + "\n".join(rows) + "\n"
 p = os.path.join(VERIF, 'DESIGN.md')
